@@ -330,6 +330,14 @@ func Catalogue(prop, tier string) []Cfg {
 		c.Fault = true
 		add(c)
 		if !quick {
+			for _, d := range []string{"v2", "v1", "s2", "s1"} {
+				c = pc(d, []uint{3, 2, 1}, 3, "fair", []int{2}, []int{2, 1, 1}, "rr", "")
+				c.Fault = true
+				add(c)
+				c = pc(d, []uint{2, 1}, 3, "rate", []int{0, 2}, []int{2, 2}, "pool", "")
+				c.Fault = true
+				add(c)
+			}
 			c = pc("v2", []uint{3, 2, 1}, 4, "rate", []int{2}, []int{2}, "rr", "preclosed")
 			c.Fault = true
 			add(c)
@@ -555,6 +563,15 @@ func Catalogue(prop, tier string) []Cfg {
 			c := jc("unite2", 2, false, 1, 4, 4, 25, []int64{0, 5}, []int64{0, 3}, nil)
 			c.Late, c.Horizon = 1, 30
 			add(c)
+			if !quick {
+				for _, nocopy := range []bool{false, true} {
+					add(jc("unite2", 4, nocopy, 2, 10, 0, 0, nil, nil, nil))
+					add(jc("unite2", 3, nocopy, 1, 8, 4, 50, []int64{0, 3, 5}, []int64{0, 4}, nil))
+				}
+				c = jc("unite2", 2, true, 1, 4, 4, 25, []int64{0, 5}, []int64{0, 3}, []int64{0, 5})
+				c.Late, c.Horizon = 2, 30
+				add(c)
+			}
 		}
 	case "C04", "C12":
 		lc := func(q uint64, i int64, cp, n int, pauses, delays []int64, mode string) Cfg {
@@ -657,6 +674,23 @@ func Catalogue(prop, tier string) []Cfg {
 			rc("v1", func(c *Cfg) { c.N = []int{2}; c.Script = 1 })
 		}
 	case "C16":
+		if !quick {
+			for _, stop := range []string{"stop", "cancel", "both"} {
+				for _, mode := range []string{"", "norelease", "noread"} {
+					c := pc("v1", []uint{3, 2, 1}, 3, "fair", []int{2}, []int{2, 1, 1}, "pool", mode)
+					c.Stop = stop
+					add(c)
+					c = pc("v1", []uint{2, 1}, 3, "rate", []int{0, 2}, []int{2, 2}, "rr", mode)
+					c.Stop, c.OutCap, c.FbCap = stop, 2, 2
+					add(c)
+				}
+				c := pc("s1", []uint{3, 2, 1}, 3, "fair", []int{2}, []int{1, 1, 1}, "", "norelease")
+				c.Stop = stop
+				add(c)
+				j := Cfg{Harness: "join", Disc: "join1", J: 3, NoCopy: true, Cap: []int{2}, N: []int{7}, Stop: stop, Timeout: 4, Pauses: []int64{0, 3, 5}, Delays: []int64{0, 5}, Retain: []int64{0, 5}, Bound: -1, Graph: true}
+				add(j)
+			}
+		}
 		// the context already cancelled at creation; Stop() more than once
 		for _, stop := range []string{"precancel", "twice"} {
 			if stop == "precancel" {
